@@ -49,7 +49,7 @@ def b_transform(item):
     return it
 
 
-def compatible(item):
+def compatible(item, strict=True):
     tps = [p.name for p in item.params if p.kind == 'ty']
     for p in item.params:
         if p.kind == 'ty' and p.bounds.strip() not in ('', 'Super', 'Clone', "'static", 'All', 'Super + All', 'Clone + All', "'static + All"):
@@ -70,6 +70,9 @@ def compatible(item):
         for f in v.fields:
             if field_kind(f.ty, tps) is None:
                 return False
+    if not strict:
+        used = ' '.join(f.ty for v in item.variants for f in v.fields)
+        return all(re.search(r'\b%s\b' % re.escape(t), used) for t in tps)
     # well-posedness that is the user's business, not the macro's
     tr = set(derived_traits(item))
     need = {'Ord': {'Eq', 'PartialOrd', 'PartialEq'}, 'PartialOrd': {'PartialEq'}, 'Eq': {'PartialEq'}, 'Copy': {'Clone'}}
@@ -152,7 +155,7 @@ def val_expr(item, k, vals, targs):
     ks = kinds_of(item)[k]
 
     def fe(kind, x):
-        return {'leaf': 'Leaf(%d)' % x, 'u8': '%du8' % x, 'ph': 'PhantomData', 'inh': 'Inh(%d)' % x}[kind]
+        return {'leaf': 'Leaf(%d)' % x, 'u8': '%du8' % x, 'ph': '::core::marker::PhantomData', 'inh': 'Inh(%d)' % x}[kind]
     path = item.ident.rust() + ('::' + targs if targs else '')
     if item.kind == 'enum':
         path += '::' + v.ident.rust()
@@ -238,7 +241,31 @@ def qstr(q):
     return ';'.join([op] + [enc(x) for x in (a, b) if x is not None])
 
 
-def rust_probe(idx, item, cfg, qs):
+HOSTILE = '''
+        // everything the expansion mentions, redefined
+        pub mod core {} pub mod std {} pub mod zeroize {}
+        pub struct Option; pub struct Some; pub struct None; pub struct Ordering; pub struct Result; pub struct Ok;
+        pub struct PhantomData; pub struct Formatter; pub struct DebugStruct; pub struct DebugTuple; pub struct Sized;
+        pub trait Debug {} pub trait Default {} pub trait Hash {}
+        pub trait PartialEq {} pub trait PartialOrd {} pub trait Hasher {} pub trait Drop {} pub trait Zeroize {}
+        pub trait ZeroizeOnDrop {} pub trait AssertZeroize {} pub trait AssertZeroizeOnDrop {}
+        pub fn discriminant() {} pub fn unreachable_unchecked() {} pub fn drop() {}
+        macro_rules! matches { ($($t:tt)*) => { compile_error!("local matches! used") } }
+        macro_rules! unreachable { ($($t:tt)*) => { compile_error!("local unreachable! used") } }
+        macro_rules! compile_error2 { () => {} }
+        // a blanket trait whose methods win over inherent `&mut self` methods and over nothing else
+        pub trait Hijack {
+            fn finish(&self) -> ::core::fmt::Result { ::core::result::Result::Err(::core::fmt::Error) }
+            fn finish_non_exhaustive(&self) -> ::core::fmt::Result { ::core::result::Result::Err(::core::fmt::Error) }
+            fn field(&self) {} fn write_str(&self) {} fn debug_struct(&self) {} fn debug_tuple(&self) {}
+            fn eq(&self) {} fn ne(&self) {} fn partial_cmp(&self) {} fn cmp(&self) {} fn hash(&self) {}
+            fn clone(&self) {} fn fmt(&self) {} fn cast(&self) {}
+        }
+        impl<T: ?::core::marker::Sized> Hijack for T {}
+'''
+
+
+def rust_probe(idx, item, cfg, qs, hostile=False):
     targs = type_args(item)
     lines = []
     ty = item.ident.rust() + targs
@@ -249,7 +276,7 @@ def rust_probe(idx, item, cfg, qs):
             if op == 'eq':
                 lines.append('{ let a: %s = %s; let b: %s = %s; emit(format!("%s|{}|{}", a == b, a != b)); }' % (ty, ea, ty, eb, tag))
             elif op == 'pcmp':
-                lines.append('{ let a: %s = %s; let b: %s = %s; emit(format!("%s|{:?}|{}{}{}{}", a.partial_cmp(&b), '
+                lines.append('{ let a: %s = %s; let b: %s = %s; emit(format!("%s|{:?}|{}{}{}{}", ::core::cmp::PartialOrd::partial_cmp(&a, &b), '
                              '(a < b) as u8, (a <= b) as u8, (a > b) as u8, (a >= b) as u8)); }' % (ty, ea, ty, eb, tag))
             else:
                 lines.append('{ let a: %s = %s; let b: %s = %s; emit(format!("%s|{:?}", ::core::cmp::Ord::cmp(&a, &b))); }' % (ty, ea, ty, eb, tag))
@@ -264,14 +291,15 @@ def rust_probe(idx, item, cfg, qs):
         elif op == 'default':
             lines.append('{ let a: %s = ::core::default::Default::default(); take_log(); emit(format!("%s|{}", view(&a))); }' % (ty, tag))
         elif op == 'zeroize':
-            lines.append('{ let mut a: %s = %s; take_log(); zeroize::Zeroize::zeroize(&mut a); let l = take_log(); '
+            lines.append('{ let mut a: %s = %s; take_log(); ::zeroize::Zeroize::zeroize(&mut a); let l = take_log(); '
                          'emit(format!("%s|{}|{}", view(&a), l)); }' % (ty, val_expr(item, a[0], a[1], targs), tag))
         elif op == 'drop':
-            lines.append('{ let a: %s = %s; take_log(); let nd = ::core::mem::needs_drop::<%s>(); drop(a); let l = take_log(); '
+            lines.append('{ let a: %s = %s; take_log(); let nd = ::core::mem::needs_drop::<%s>(); ::core::mem::drop(a); let l = take_log(); '
                          'emit(format!("%s|{}|{}", nd, l)); }' % (ty, val_expr(item, a[0], a[1], targs), ty, tag))
     body = '\n        '.join(lines)
-    return ('pub mod m%d {\n    use super::prelude::*;\n    use derive_where::derive_where;\n    %s\n    %s\n'
-            '    pub fn run() {\n        emit(format!("BEGIN|%d"));\n        %s\n    }\n}\n' % (idx, item.rust(), view_fn(item, targs), idx, body))
+    return ('pub mod m%d {\n    use super::prelude::*;\n    use derive_where::derive_where;\n%s    %s\n    %s\n'
+            '    pub fn run() {\n        emit(format!("BEGIN|%d"));\n        %s\n    }\n}\n'
+            % (idx, HOSTILE if hostile else '', item.rust(), view_fn(item, targs), idx, body))
 
 
 CARGO = '''[package]
@@ -299,17 +327,18 @@ def write_crate(cfg, mods, active):
         f.write(CARGO % (feats, 'zeroize = "1"' if z else ''))
     shutil.copy('/repo/Cargo.lock', os.path.join(d, 'Cargo.lock'))
     shutil.copy(os.path.join(EXEC, 'prelude.rs'), os.path.join(d, 'src', 'prelude.rs'))
-    src = ['#![allow(warnings)]', 'mod prelude;']
+    src = ['#![allow(warnings)]', 'mod prelude;', '#[cfg(feature = "z")] extern crate zeroize as zeroize_;']
     offsets = {}
-    line = 3
+    line = 4
     for i, m in enumerate(mods):
         if i in active:
             offsets[i] = (line, line + m.count('\n'))
             src.append(m.rstrip('\n'))
             line += m.count('\n')
-    src.append('fn main() {')
+    src.append('fn main() {\n    std::panic::set_hook(Box::new(|_| {}));')
     for i in sorted(active):
-        src.append('    m%d::run();' % i)
+        src.append('    if let Err(e) = std::panic::catch_unwind(|| m%d::run()) { prelude::emit(format!("PANIC|%d|{}", '
+                   'e.downcast_ref::<String>().cloned().or_else(|| e.downcast_ref::<&str>().map(|s| s.to_string())).unwrap_or_default().replace("\\n", " "))); }' % (i, i))
     src.append('}')
     with open(os.path.join(d, 'src', 'main.rs'), 'w') as f:
         f.write('\n'.join(src) + '\n')
@@ -376,6 +405,9 @@ def build_run(cfg, mods):
             parts = line.split('|')
             if parts[0] == 'BEGIN':
                 last = (int(parts[1]), -1)
+            elif parts[0] == 'PANIC':
+                if last is not None and last[0] == int(parts[1]):
+                    crashes[last[0]] = (last[1] + 1, 'panicked: ' + '|'.join(parts[2:]))
             elif len(parts) >= 3:
                 out[(int(parts[0]), int(parts[1]))] = parts[2:]
                 last = (int(parts[0]), int(parts[1]))
@@ -549,13 +581,13 @@ def expected_observation(item, cfg, q, spec, all_answers):
     return None
 
 
-def run_b(cfg, named_items):
+def run_b(cfg, named_items, hostile=False):
     """named_items: [(name, Item)] all `compatible`. Returns a report dict."""
     mods, qss = [], []
     for idx, (name, it) in enumerate(named_items):
         qs = queries_for(it, cfg)
         qss.append(qs)
-        mods.append(rust_probe(idx, it, cfg, qs))
+        mods.append(rust_probe(idx, it, cfg, qs, hostile))
     errors, out, runerr, crashes = build_run(cfg, mods)
     _, bits = runner.CONFIGS[cfg]
     lines = ['specq %s %s%s' % (bits, it.sexp(), ''.join(' ## ' + qstr(q) for q in qs))
@@ -611,6 +643,8 @@ def run_b(cfg, named_items):
                 continue
             exp = expected_observation(it, cfg, q, spec, {k: v for k, v in specs.items()})
             obs = out.get((idx, qi))
+            if obs is None:
+                continue        # no observation (an earlier query of a crashing run); never a failure by itself
             if exp is not None and obs != exp:
                 report['failures'].append(dict(name=name, source=it.rust(), config=cfg, operation=q[0],
                                                operands=[enc(x) for x in q[1:] if x is not None],
